@@ -417,6 +417,14 @@ static void DecodeAdr(tStrComp const* pArg) {
         }
     } while (*Arg.str.p_str);
 
+    /* the terms of an address expression were range-checked one by one;
+       their sum must be a 16-bit quantity as well: */
+
+    if (!UnknownFlag && !RangeCheck(DispAcc, Int16)) {
+        WrError(ErrNum_OverRange);
+        return;
+    }
+
     SumBuf = BaseBuf * 10 + IndexBuf;
 
     /* welches Segment effektiv benutzt ? */
